@@ -20,6 +20,7 @@ package tensor
 //@ func tensor.UnsafePermute
 //@   props C03
 //@   mode rank pattern
+//@   config maxrank_thorough 4
 //@   config fixlen xs=2
 //@   config prune solver
 //@   let n = len(pattern)
@@ -39,6 +40,7 @@ package tensor
 //@ func tensor.AP.T
 //@   props C03 C13
 //@   mode rank ap.shape, ap.strides
+//@   config maxrank_thorough 4
 //@   let n = len(ap.shape)
 //@   cases len(axes) : 0, n
 //@   requires [dims] forall i :: 0 <= i && i < n ==> ap.shape[i] >= 1
